@@ -37,6 +37,19 @@ class PyCore:
         )
         self.observer = rope.base.resourceobserver.FilteredResourceObserver(observer)
         self.project.add_observer(self.observer)
+        # What an import resolves to (and everything inferred from it) also
+        # depends on resources that are not cached yet: a module that did not
+        # exist when its importer was analysed, the set of source folders.
+        structure_observer = rope.base.resourceobserver.ResourceObserver(
+            moved=self._project_structure_changed,
+            created=self._project_structure_changed,
+            removed=self._project_structure_changed,
+            validate=self._project_structure_changed,
+        )
+        self.project.add_observer(structure_observer)
+
+    def _project_structure_changed(self, resource, new_resource=None):
+        self.module_cache.forget_all_data()
 
     def _init_automatic_soa(self):
         if not self.automatic_soa:
